@@ -12,6 +12,11 @@ Ops (bytes as lower-case hex, `-` = empty; floats as hex bit patterns):
 * `mbenc <mesh>`                        → `<bytes> | bin <decoded>`
 * `maenc <mesh> <k> (<bits> <display>)*`→ `<text> | tok=<0|1> | ascii <decoded>`
 * `mdec <bytes> <k> (<token> <bits|->)*`→ `<bin|ascii|other> <decoded>`
+* `plarge <n> <pat> <seed>`, `wlarge <i|f> <rows> <c> <pat> <seed>`, `mlarge b <nv> <scale> <pat> <seed>`:
+  LARGE stream; the data is derived from the seed (`mix`, mirrored in the harness), the model
+  encoder's bytes are summarised as `len=… fnv=…` (FNV-1a 64 of the bytes).  Weight payloads above
+  4.8 MB, ASCII meshes (no float printing in Lean) and the on-disk layout sweeps (`mpad`, `mbfile`)
+  are `skip large-n …`: oracle only.
 `<mesh>` = `dim nc coords* nr refs* nb (ty nn nodes* nr refs*)*`.
 Long fields (> 8192 chars) are replaced by `#<len> <fnv1a-64>`.
 -/
@@ -209,7 +214,102 @@ def decodeAny (F : NumFmt) (bytes : List Nat) : String :=
   | .other => "other"
   | .declined => "skip non-ascii text"
 
+/-! ### LARGE stream: seed-derived data (mirrors `c19.rs: mix, large_id, large_w, large_mesh`) -/
+
+def m64 (n : Nat) : Nat := n % 18446744073709551616
+
+def mix (seed i : Nat) : Nat :=
+  let z := m64 (seed + (i + 1) * 0x9E3779B97F4A7C15)
+  let z := m64 ((z ^^^ (z >>> 30)) * 0xBF58476D1CE4E5B9)
+  let z := m64 ((z ^^^ (z >>> 27)) * 0x94D049BB133111EB)
+  z ^^^ (z >>> 31)
+
+def fnvBytes (bs : List Nat) : Nat :=
+  bs.foldl (fun h b => ((h ^^^ b) * 0x100000001b3) % 18446744073709551616) 0xcbf29ce484222325
+
+def largeId (pat : String) (seed i : Nat) : Option Nat :=
+  if pat = "rand" then some (mix seed i)
+  else if pat = "small" then some (mix seed i % 64)
+  else if pat = "asc" then some i
+  else if pat = "blk" then some (i / 4096)
+  else none
+
+def largeW (float : Bool) (pat : String) (seed k : Nat) : Option Nat :=
+  if pat = "rand" then some (mix seed k)
+  else if pat = "asc" then some (if float then 0x4330000000000000 + k else k)
+  else if pat = "near" then
+    some (if float then 0x4330000000000000 ||| (mix seed k % 4503599627370496)
+          else 2305843009213693952 - mix seed k % 1000)
+  else if pat = "blk" then some (k / 4096)
+  else none
+
+def largeSpecial : List Nat :=
+  [0, 0x8000000000000000, 1, 0x7fefffffffffffff, 0xffefffffffffffff, 0x3ff0000000000000]
+
+def largeMesh (nv scale : Nat) (pat : String) (seed : Nat) : Option Mesh :=
+  if nv = 0 ∨ ¬ (pat = "rand" ∨ pat = "seq") then none else
+  let dim := 2 + seed % 2
+  let coords := (List.range (dim * nv)).map fun i =>
+    let r := mix seed i
+    if i % 97 = 96 then largeSpecial.getD (r % 6) 0
+    else ((r >>> 63) <<< 63) ||| ((1013 + (r >>> 52) % 31) <<< 52) ||| (r % 4503599627370496)
+  let refs : List Int := (List.range nv).map fun i =>
+    if i % 1000 = 999 then
+      (if (i / 1000) % 2 = 0 then 9223372036854775807 else -9223372036854775808)
+    else ((mix (m64 (seed + 1)) i % 13 : Nat) : Int) - 3
+  let spec : List (ElemType × Nat) :=
+    [(.triangle, 5 * scale), (.edge, 0), (.tetrahedron, 2 * scale + 1), (.triangle, scale + 234),
+     (.hexahedron, scale / 2 + 77), (.quadrilateral, scale + 3), (.edge, 3 * scale + 5)]
+  let blocks := spec.zipIdx.map fun ((t, ne), b) =>
+    let nodes := (List.range (ne * t.nodeCount)).map fun j =>
+      if pat = "rand" then mix (m64 (seed + 7 + b)) j % nv else j % nv
+    let rs : List Int := (List.range ne).map fun e => ((mix (m64 (seed + 100 + b)) e % 13 : Nat) : Int) - 3
+    (⟨t, nodes, rs⟩ : Block)
+  some ⟨dim, coords, refs, blocks⟩
+
+def summary (bs : List Nat) : String :=
+  "len=" ++ toString bs.length ++ " fnv=" ++ toHex (fnvBytes bs)
+
+def handleLarge (toks : List String) : Option String :=
+  match toks with
+  | ["plarge", n, pat, seed] => do
+    let n ← parseNat? n
+    let seed ← parseNat? seed
+    if n > 2000000 then none else
+    let ids ← (List.range n).mapM (largeId pat seed)
+    some ("ok n=" ++ toString n ++ " " ++ summary (encodePartition ids))
+  | ["wlarge", kind, rows, c, pat, seed] => do
+    let rows ← parseNat? rows
+    let c ← parseNat? c
+    let seed ← parseNat? seed
+    let float ← if kind = "f" then some true else if kind = "i" then some false else none
+    if rows = 0 ∨ c = 0 ∨ c > 65535 ∨ rows * c > 4000000 then none else
+    let _ ← largeW float pat seed 0
+    if rows * c * 8 > 4800000 then some "skip large-n (oracle only): weight payload above 4.8 MB" else
+    let bits ← (List.range rows).mapM fun r => (List.range c).mapM fun j => largeW float pat seed (r * c + j)
+    let a := if float then WArray.floats bits else WArray.ints (bits.map (·.map toI64))
+    match encodeWeights a with
+    | .error e => some (fmtErr e)
+    | .ok b => some ("ok " ++ kind ++ " rows=" ++ toString rows ++ " c=" ++ toString c ++ " " ++ summary b)
+  | ["mlarge", f, nv, scale, pat, seed] => do
+    let nv ← parseNat? nv
+    let scale ← parseNat? scale
+    let seed ← parseNat? seed
+    if nv > 200000 ∨ scale > 20000 then none else
+    let m ← largeMesh nv scale pat seed
+    if f = "a" then some "skip large-n (oracle only): ASCII text needs Rust's float printing"
+    else if f = "b" then
+      if binWriterPanics m then some "panic attempt to add with overflow"
+      else some ("ok " ++ summary (encodeMeditBin m))
+    else none
+  | ["mpad", _, _, _, _, _, _, _] => some "skip large-n (oracle only): on-disk layout sweep"
+  | ["mbfile", _, _, _, _] => some "skip large-n (oracle only): on-disk layout sweep"
+  | _ => none
+
 def handle (toks : List String) : String :=
+  match handleLarge toks with
+  | some r => r
+  | none =>
   match toks with
   | "penc" :: n :: rest =>
     match (do
